@@ -44,16 +44,50 @@ Definition pairs (cs : list call) : list (N * bytes) :=
    (dual_proof_no_fork) — sessions against servers whose states all come from well-formed histories
    are consistent.
 
-   NOT proved (statements kept here; against an arbitrary server the roots inside the headers are
-   not known to be roots of genuine trees, so the soundness theorems of coq/Merkle — all of the form
-   "accepted against the root of a genuine tree => ..." — do not apply; what is needed is the
-   agreement of two acceptances against ONE unknown root, for VerifyInclusion, VerifyLastInclusion
-   and VerifyConsistency together, which has not been developed):
-     session_consistency_v1_partial : for verify_dual_proof, the full statement above restricted
-       to sessions in which no call has  source.BlTxID < target.BlTxID < sourceTxID  (what every
-       header a current server emits satisfies: BlTxID = ID - 1);
-     session_consistency_v2 : the full statement above for verify_dual_proof_v2 with sourceTxID <
-       targetTxID in every call.                                                                *)
+   REFUTED as well (Proofs/Refuted.v session_consistency_v2_refuted and
+   session_consistency_v1_overlong_refuted, ordinary non-lagging headers): the statement for
+   verify_dual_proof_v2 and the statement for verify_dual_proof restricted to BlTxID = ID - 1.  Cause:
+   against a root that is not known to be the root of a genuine tree of the claimed size,
+   verify_inclusion is not position-exact — it demands (i-1)>>len = (j-1)>>len but accepts any number of
+   further terms (and verify_last_inclusion checks no length), so one root commits to two leaves at
+   one position (i, j) through proofs of different lengths.
+   What would make the statements provable (not the case for the code as it stands):
+     (U) uniqueness against ONE unknown root: two accepted inclusion proofs for the same (i, j) and
+         root carry the same leaf or exhibit a collision. It holds as soon as the proof length is a
+         function of (i, j) (then both proofs hash along the same directions; induction over the
+         terms with nodeh_inj) — the repair proposed in fixes/C01-ahtree-inclusion-length.diff;
+     (T) transport across a state advance: an accepted consistency proof from (m, R) to (n, R')
+         carries every (i, leaf) provable against (m, R) to one provable against (n, R'). This needs
+         verify_consistency to be exact in the old SIZE, which it is not (C08 known finding:
+         VerifyConsistency([R2],1,2,R2,R2) accepts), again a proof-length test. *)
+
+(* VerifyDualProofV2 as a verifier of calls (the V2 proof carries the two headers, the inclusion and
+   the consistency terms only) *)
+Definition dp_to_v2 (p : dual_proof) : dual_proof_v2 :=
+  {| d2_src := dp_src p; d2_tgt := dp_tgt p; d2_incl := dp_incl p; d2_cons := dp_cons p |}.
+Definition verify_dual_proof_v2_call (H : bytes -> bytes) : verifier :=
+  fun p src tgt salh talh => verify_dual_proof_v2 H (option_map dp_to_v2 p) src tgt salh talh.
+
+(* One verified read of transaction v by the client (pkg/client VerifiedTxByID; verifiedGet selects
+   source and target in the same way): the trusted (id, hash) comes from the client's state `st`
+   (None: no state yet, TxId 0, nothing is verified), the other side's hash is computed from the
+   header in the response; the new state is the call's target. Result: Ok (Some st') accepted,
+   Ok None rejected (ErrCorruptedData), Panic for a nil header (Go: nil dereference in Alh()).
+   The state signature and the comparison of the returned Tx with the proven header (commit
+   89a7093) are outside this model. *)
+Definition client_step (H : bytes -> bytes) (st : option (N * bytes)) (v : N) (p : dual_proof)
+  : res (option (N * bytes)) :=
+  let '(sid, shash) := match st with Some x => x | None => (0, zeros32) end in
+  match dp_src p, dp_tgt p with
+  | Some sh, Some th =>
+      do r <- (if sid <=? v then do ta <- alh H th; Ok (sid, shash, v, ta)
+               else do sa <- alh H sh; Ok (v, sa, sid, shash));
+      let '(s, sa, t, ta) := r in
+      do ok <- (if 0 <? sid then verify_dual_proof H (Some p) s t sa ta else Ok true);
+      Ok (if ok then Some (t, ta) else None)
+  | _, _ => Panic
+  end.
+
 Definition session_inconsistent (V : verifier) : Prop :=
   exists st cs id a b,
     session V st cs /\ In (id, a) (st :: pairs cs) /\ In (id, b) (st :: pairs cs) /\ a <> b.
